@@ -3,6 +3,7 @@ package c10
 import (
 	"bytes"
 	"fmt"
+	"io"
 	"math/big"
 	"testing"
 
@@ -344,4 +345,249 @@ func checkKX(c kxCase, r *h.Rec) error {
 		return keysMustDiffer(n)
 	}
 	return nil
+}
+
+// ---------------------------------------------------------------- object reuse
+
+// Several complete exchanges on the SAME initiator object and the SAME
+// responder object (roles, key length and confirmation are fixed per object by
+// NewKeyExchange), each with new ephemerals, optionally after a step that was
+// made to fail or after an exchange that was started and abandoned. Every
+// exchange must equal the model and what a fresh pair of objects derives from
+// the same random streams.
+type kxReuseCase struct {
+	LenA, LenB int
+	Klen       int
+	Confirm    bool
+	Hid        int
+	MK         MK
+	Pre        []int // per exchange: what happens on the objects before it (see kxPreNames)
+	Seed       uint64
+}
+
+var kxPreNames = []string{"pre:none", "pre:malformed-RA", "pre:wrong-SB", "pre:wrong-SA", "pre:malformed-RB", "pre:abandoned-init", "pre:abandoned-respond", "pre:RB-of-previous-run"}
+
+func TestC10_KeyExchangeReuse(t *testing.T) {
+	h.Sweep(t, h.P{Name: "kx-reuse"}, func(emit func(kxReuseCase)) {
+		klens := []int{16, 97, 32, 200, 1, 48}
+		n := h.Scale(48, 400)
+		if quickPurego() {
+			n = 16
+		}
+		for i := 0; i < n; i++ {
+			c := kxReuseCase{LenA: (i * 5) % 67, LenB: (i*11 + 3) % 64, Klen: klens[i%len(klens)], Confirm: i%2 == 0, Hid: int(pickHid(i+1, h.Seed)),
+				MK: sweepMasters[i%len(sweepMasters)], Seed: gen.Mix(h.Seed, 0x2e05e, uint64(i))}
+			runs := 2 + i%3
+			for j := 0; j < runs; j++ {
+				pre := 0
+				if i >= 8 { // the first cases are plain repetitions
+					pre = int(gen.Mix(c.Seed, uint64(j)) % uint64(len(kxPreNames)))
+				}
+				c.Pre = append(c.Pre, pre)
+			}
+			emit(c)
+		}
+	}, checkKXReuse)
+}
+
+type kxObj interface {
+	Destroy()
+	InitKeyExchange(rand io.Reader, hid byte) ([]byte, error)
+	RespondKeyExchange(rand io.Reader, hid byte, peerData []byte) ([]byte, []byte, error)
+	ConfirmResponder(rB, sB []byte) ([]byte, []byte, error)
+	ConfirmInitiator(peerData []byte) ([]byte, error)
+}
+
+// exchange runs the four steps on the given objects.
+func exchange(ini, rsp kxObj, hid byte, seedA, seedB uint64) (*kxRun, error) {
+	out := &kxRun{}
+	ra, err := ini.InitKeyExchange(gen.NewDetReader(seedA), hid)
+	if err != nil {
+		return nil, fmt.Errorf("InitKeyExchange: %v", err)
+	}
+	out.RA = append([]byte{}, ra...)
+	rb, sb, err := rsp.RespondKeyExchange(gen.NewDetReader(seedB), hid, append([]byte{}, ra...))
+	if err != nil {
+		return nil, fmt.Errorf("RespondKeyExchange: %v", err)
+	}
+	out.RB, out.SB = append([]byte{}, rb...), append([]byte{}, sb...)
+	var sbIn []byte
+	if sb != nil {
+		sbIn = append([]byte{}, sb...)
+	}
+	ska, sa, err := ini.ConfirmResponder(append([]byte{}, rb...), sbIn)
+	if err != nil {
+		return nil, fmt.Errorf("ConfirmResponder: %v", err)
+	}
+	out.SKA, out.SA = append([]byte{}, ska...), append([]byte{}, sa...)
+	var saIn []byte
+	if sa != nil {
+		saIn = append([]byte{}, sa...)
+	}
+	skb, err := rsp.ConfirmInitiator(saIn)
+	if err != nil {
+		return nil, fmt.Errorf("ConfirmInitiator: %v", err)
+	}
+	out.SKB = append([]byte{}, skb...)
+	return out, nil
+}
+
+func checkKXReuse(c kxReuseCase, r *h.Rec) error {
+	r.NT()
+	hid := byte(c.Hid)
+	idA := mkUID(gen.Mix(c.Seed, 0xa), c.LenA)
+	idB := mkUID(gen.Mix(c.Seed, 0xb), c.LenB)
+	r.Label(c.MK.label())
+	r.Label("kx-reuse:%d-exchanges", len(c.Pre))
+	if c.Confirm {
+		r.Label("confirm")
+	} else {
+		r.Label("no-confirm")
+	}
+	em, ua, err := getEncUser(c.MK, idA, hid, false)
+	if err == errT1Zero {
+		return nil
+	}
+	if err != nil {
+		return err
+	}
+	_, ub, err := getEncUser(c.MK, idB, hid, false)
+	if err == errT1Zero {
+		return nil
+	}
+	if err != nil {
+		return err
+	}
+	pp, err := decodeG1(em.pub)
+	if err != nil {
+		return err
+	}
+	qb := new(G1).Add(g1Mul(verifhook.Gen1, mH1(idB, hid)), pp)
+	ini := ua.key.NewKeyExchange(idA, idB, c.Klen, c.Confirm)
+	rsp := ub.key.NewKeyExchange(idB, idA, c.Klen, c.Confirm)
+	defer ini.Destroy()
+	defer rsp.Destroy()
+	var prev *kxRun
+	for j, pre := range c.Pre {
+		r.Label(kxPreNames[pre])
+		seedA, seedB := gen.Mix(c.Seed, 0x100, uint64(j)), gen.Mix(c.Seed, 0x200, uint64(j))
+		where := fmt.Sprintf("exchange %d of %d on the same objects (%s)", j+1, len(c.Pre), kxPreNames[pre])
+		// ---- something that fails or is abandoned first, on the same objects
+		junkA, junkB := gen.Mix(c.Seed, 0x300, uint64(j)), gen.Mix(c.Seed, 0x400, uint64(j))
+		switch pre {
+		case 1:
+			if _, _, err := rsp.RespondKeyExchange(gen.NewDetReader(junkB), hid, []byte{4, 1, 2, 3}); err == nil {
+				return fmt.Errorf("%s: RespondKeyExchange accepts a malformed R_A", where)
+			}
+		case 2, 4, 7:
+			ra, err := ini.InitKeyExchange(gen.NewDetReader(junkA), hid)
+			if err != nil {
+				return fmt.Errorf("%s: InitKeyExchange: %v", where, err)
+			}
+			rb, sb, err := rsp.RespondKeyExchange(gen.NewDetReader(junkB), hid, ra)
+			if err != nil {
+				return fmt.Errorf("%s: RespondKeyExchange: %v", where, err)
+			}
+			rb = append([]byte{}, rb...)
+			switch {
+			case pre == 2 && c.Confirm:
+				bad := append([]byte{}, sb...)
+				bad[j%len(bad)] ^= 2
+				if _, _, err := ini.ConfirmResponder(rb, bad); err == nil {
+					return fmt.Errorf("%s: ConfirmResponder accepts a wrong S_B", where)
+				}
+			case pre == 4:
+				rb[64] ^= 1
+				if _, _, err := ini.ConfirmResponder(rb, sb); err == nil {
+					return fmt.Errorf("%s: ConfirmResponder accepts an R_B that is not on the curve", where)
+				}
+			case pre == 7 && prev != nil && c.Confirm:
+				if _, _, err := ini.ConfirmResponder(append([]byte{}, prev.RB...), append([]byte{}, prev.SB...)); err == nil {
+					return fmt.Errorf("%s: ConfirmResponder accepts the previous exchange's (R_B, S_B) for a new R_A", where)
+				}
+			}
+		case 3:
+			if c.Confirm {
+				x, err := exchangeUpToSA(ini, rsp, hid, junkA, junkB)
+				if err != nil {
+					return fmt.Errorf("%s: %v", where, err)
+				}
+				x[j%len(x)] ^= 1
+				if _, err := rsp.ConfirmInitiator(x); err == nil {
+					return fmt.Errorf("%s: ConfirmInitiator accepts a wrong S_A", where)
+				}
+			}
+		case 5:
+			if _, err := ini.InitKeyExchange(gen.NewDetReader(junkA), hid); err != nil {
+				return fmt.Errorf("%s: InitKeyExchange: %v", where, err)
+			}
+		case 6:
+			ra, err := ini.InitKeyExchange(gen.NewDetReader(junkA), hid)
+			if err != nil {
+				return fmt.Errorf("%s: InitKeyExchange: %v", where, err)
+			}
+			if _, _, err := rsp.RespondKeyExchange(gen.NewDetReader(junkB), hid, ra); err != nil {
+				return fmt.Errorf("%s: RespondKeyExchange: %v", where, err)
+			}
+		}
+		// ---- the exchange proper
+		run, err := exchange(ini, rsp, hid, seedA, seedB)
+		if err != nil {
+			return fmt.Errorf("%s failed: %v", where, err)
+		}
+		if !bytes.Equal(run.SKA, run.SKB) || len(run.SKA) != c.Klen {
+			return fmt.Errorf("%s: the two sides hold different keys: SKA=%s SKB=%s", where, h.Hex(run.SKA), h.Hex(run.SKB))
+		}
+		// a fresh pair of objects, same streams
+		fi := ua.key.NewKeyExchange(idA, idB, c.Klen, c.Confirm)
+		fr := ub.key.NewKeyExchange(idB, idA, c.Klen, c.Confirm)
+		fresh, err := exchange(fi, fr, hid, seedA, seedB)
+		fi.Destroy()
+		fr.Destroy()
+		if err != nil {
+			return fmt.Errorf("%s: the same exchange on fresh objects failed: %v", where, err)
+		}
+		for _, p := range []struct {
+			n    string
+			a, b []byte
+		}{{"R_A", run.RA, fresh.RA}, {"R_B", run.RB, fresh.RB}, {"S_B", run.SB, fresh.SB}, {"S_A", run.SA, fresh.SA}, {"SK", run.SKA, fresh.SKA}} {
+			if !bytes.Equal(p.a, p.b) {
+				return fmt.Errorf("%s: %s = %s, fresh objects fed the same random streams give %s", where, p.n, h.Hex(p.a), h.Hex(p.b))
+			}
+		}
+		// the model
+		if rA := recoverR(seedA, qb, run.RA[1:]); rA != nil {
+			mo, err := mKX(ua.de, ub.de, idA, idB, run.RA[1:], run.RB[1:], rA, c.Klen)
+			if err != nil {
+				return err
+			}
+			if !bytes.Equal(run.SKA, mo.SK) || c.Confirm && (!bytes.Equal(run.SB, mo.SB) || !bytes.Equal(run.SA, mo.SA)) {
+				return fmt.Errorf("%s differs from the model: SK=%s want %s; S_B=%x want %x; S_A=%x want %x", where, h.Hex(run.SKA), h.Hex(mo.SK), run.SB, mo.SB, run.SA, mo.SA)
+			}
+		} else {
+			r.Label("model:rA-not-recovered")
+		}
+		if prev != nil && bytes.Equal(prev.SKA, run.SKA) && c.Klen >= 8 {
+			return fmt.Errorf("%s derived the same key as the previous exchange although both ephemerals are new", where)
+		}
+		prev = run
+	}
+	return nil
+}
+
+// exchangeUpToSA runs an exchange up to the initiator's confirmation value.
+func exchangeUpToSA(ini, rsp kxObj, hid byte, seedA, seedB uint64) ([]byte, error) {
+	ra, err := ini.InitKeyExchange(gen.NewDetReader(seedA), hid)
+	if err != nil {
+		return nil, fmt.Errorf("InitKeyExchange: %v", err)
+	}
+	rb, sb, err := rsp.RespondKeyExchange(gen.NewDetReader(seedB), hid, ra)
+	if err != nil {
+		return nil, fmt.Errorf("RespondKeyExchange: %v", err)
+	}
+	_, sa, err := ini.ConfirmResponder(append([]byte{}, rb...), append([]byte{}, sb...))
+	if err != nil {
+		return nil, fmt.Errorf("ConfirmResponder: %v", err)
+	}
+	return append([]byte{}, sa...), nil
 }
